@@ -340,7 +340,8 @@ Proof.
   - intros H. destruct (collect_entries _ _ _ _ _ _ H) as [M F].
     rewrite nh_range_spec in M by exact He.
     rewrite F, (consecutive_upfrom _ _ _ M), andb_true_r, andb_true_r.
-    rewrite <- (map_length snd out), M, upfrom_length.
+    pose proof (f_equal (@length N) M) as LM. rewrite map_length, upfrom_length in LM.
+    unfold gentry in *. rewrite LM.
     destruct (s <? e) eqn:L; [lia | reflexivity].
   - destruct (((scope =? 1) || (scope =? 2)) && rk); [discriminate|]. intros H; inversion H; reflexivity.
 Qed.
@@ -383,13 +384,14 @@ Proof.
   - apply (outcome_eqb_spec _ _ (option_eqb_spec _ glist_eqb_spec) gg_err_eqb_spec) in R. subst o.
     unfold generate_gap_addresses.
     destruct (limit_for g scope) as [gl|] eqn:LF.
-    + destruct find as [[gs|]|u|]; try reflexivity.
-      * pose proof (nh_saturating_add_bound gs gl) as BD.
+    + destruct find as [[gs|]|u|]; try reflexivity;
+        [|repeat (apply andb_true_iff in W; destruct W as [W ?]); discriminate].
+      pose proof (nh_saturating_add_bound gs gl) as BD.
         destruct (generate_address_list (orc_of t) (sivk_of t) k f scope r gs (nh_saturating_add gs gl) require_key) as [l|er|] eqn:G.
-        -- destruct store_ok; [|reflexivity]. cbn [andb]. rewrite <- nh_saturating_add_min.
-           eapply list_ok_model; [exact BD | exact G].
-        -- eapply list_err_model; exact G.
-        -- exfalso. exact (list_never_panics t _ _ _ _ _ _ _ G).
+      * destruct store_ok; [|reflexivity]. cbn [andb]. rewrite <- nh_saturating_add_min.
+        eapply list_ok_model; [exact BD | exact G].
+      * eapply list_err_model; exact G.
+      * exfalso. exact (list_never_panics t _ _ _ _ _ _ _ G).
     + unfold limit_for in LF. unfold gerr_plausible. rewrite N.eqb_refl.
       destruct (scope =? 0); [discriminate|]. destruct (scope =? 1); [discriminate|].
       destruct (scope =? 2); [discriminate|]. reflexivity.
